@@ -75,7 +75,7 @@ func init() {
 		Assumptions: []string{
 			"ref/annexb (byte-wise scanner, stream/sample builders) is written from Annex B / 14496-15 and never imports mp4ff",
 			"mp4ff's documented notion of an AVC video NAL unit is nal_unit_type <= 5 (IsVideoNaluType; type 0 counts as video); HEVC video is type <= 31",
-			"where a doc comment leaves a choice open (first video NAL unit included or not in 'up to first video'; parameter sets after the first video NAL unit; stopAtVideo with a video type) both readings are accepted and the observed one is recorded in evidence",
+			"where a doc comment leaves a choice open (first video NAL unit included or not in 'up to first video'; parameter sets after the first video NAL unit; stopAtVideo with a video type) both readings are accepted and the observed one is recorded in evidence; GetParameterSets (sample walker) and GetParameterSetsFromByteStream (byte-stream walker) must however use the same reading for the same unit sequence",
 		},
 		Setup:    func(env *runner.Env) error { buildBlocks(env); return nil },
 		NumCases: func(env *runner.Env) int { return len(blocks) },
@@ -857,12 +857,18 @@ func (k *checker) checkAVC(smp, strm []byte) {
 		}
 	}
 	{
-		var sps, pps [][]byte
-		if k.guard("avc.GetParameterSets", func() { sps, pps = avc.GetParameterSets(smp) }) {
+		var sps, pps, sps2, pps2 [][]byte
+		ok1 := k.guard("avc.GetParameterSets", func() { sps, pps = avc.GetParameterSets(smp) })
+		if ok1 {
 			k.checkPS("avc.GetParameterSets", m, []int{7, 8}, [][][]byte{sps, pps}, false)
 		}
-		if k.guard("avc.GetParameterSetsFromByteStream", func() { sps, pps = avc.GetParameterSetsFromByteStream(strm) }) {
-			k.checkPS("avc.GetParameterSetsFromByteStream", m, []int{7, 8}, [][][]byte{sps, pps}, true)
+		ok2 := k.guard("avc.GetParameterSetsFromByteStream", func() { sps2, pps2 = avc.GetParameterSetsFromByteStream(strm) })
+		if ok2 {
+			k.checkPS("avc.GetParameterSetsFromByteStream", m, []int{7, 8}, [][][]byte{sps2, pps2}, true)
+		}
+		// the two walkers of the same unit sequence must use one convention for what lies behind the first video unit
+		if ok1 && ok2 && m.firstVideo < n && (!equalLists(sps, sps2) || !equalLists(pps, pps2)) && !k.failed {
+			k.viol("avc.GetParameterSets", "disagrees-with-byte-stream-twin", fmt.Sprintf("sample walker returns unit sizes %v / %v, byte-stream walker %v / %v for the same units (types %v)", lens(sps), lens(pps), lens(sps2), lens(pps2), m.types))
 		}
 	}
 	k.checkExtractOfType("avc.ExtractNalusOfTypeFromByteStream", m, 32, func(t int, stop bool) [][]byte {
@@ -1012,12 +1018,17 @@ func (k *checker) checkHEVC(smp, strm []byte) {
 		}
 	}
 	{
-		var vps, sps, pps [][]byte
-		if k.guard("hevc.GetParameterSets", func() { vps, sps, pps = hevc.GetParameterSets(smp) }) {
+		var vps, sps, pps, vps2, sps2, pps2 [][]byte
+		ok1 := k.guard("hevc.GetParameterSets", func() { vps, sps, pps = hevc.GetParameterSets(smp) })
+		if ok1 {
 			k.checkPS("hevc.GetParameterSets", m, []int{32, 33, 34}, [][][]byte{vps, sps, pps}, false)
 		}
-		if k.guard("hevc.GetParameterSetsFromByteStream", func() { vps, sps, pps = hevc.GetParameterSetsFromByteStream(strm) }) {
-			k.checkPS("hevc.GetParameterSetsFromByteStream", m, []int{32, 33, 34}, [][][]byte{vps, sps, pps}, true)
+		ok2 := k.guard("hevc.GetParameterSetsFromByteStream", func() { vps2, sps2, pps2 = hevc.GetParameterSetsFromByteStream(strm) })
+		if ok2 {
+			k.checkPS("hevc.GetParameterSetsFromByteStream", m, []int{32, 33, 34}, [][][]byte{vps2, sps2, pps2}, true)
+		}
+		if ok1 && ok2 && m.firstVideo < n && (!equalLists(vps, vps2) || !equalLists(sps, sps2) || !equalLists(pps, pps2)) && !k.failed {
+			k.viol("hevc.GetParameterSets", "disagrees-with-byte-stream-twin", fmt.Sprintf("sample walker returns unit sizes %v / %v / %v, byte-stream walker %v / %v / %v for the same units (types %v)", lens(vps), lens(sps), lens(pps), lens(vps2), lens(sps2), lens(pps2), m.types))
 		}
 	}
 	k.checkExtractOfType("hevc.ExtractNalusOfTypeFromByteStream", m, 64, func(t int, stop bool) [][]byte {
